@@ -24,9 +24,9 @@ def strip_comments(s):
     return s
 
 
-def fn_body(text, name):
+def fn_body(text, name, prefix=""):
     """Text of `fn name(...) ... { body }` (brace matched), comments stripped, whitespace collapsed."""
-    m = re.search(r"\bfn\s+" + re.escape(name) + r"\b[^;{]*\{", text)
+    m = re.search(prefix + r"\bfn\s+" + re.escape(name) + r"\b[^;{]*\{", text)
     if not m:
         return None
     i = m.end() - 1
@@ -162,6 +162,12 @@ def main():
     txt("time_string_guard", m.group(1).replace(" ", "") if m else None)
     nb2 = fn_body(dtntime, "dtn_time_now") or ""
     txt("time_now_expr", re.sub(r"\s+", "", nb2.strip("{} ")) if nb2 else None)
+    # ---- C05: check_crc
+    cb = fn_body(crc, "check_crc", prefix=r"pub ") or ""
+    m = re.search(r"(calculate_crc\(blck\)\.bytes\(\) == blck\.crc\(\))", cb)
+    txt("check_crc_compare", m.group(1).replace(" ", "") if m else None)
+    cv = fn_body(bundle, "crc_valid") or ""
+    txt("crc_valid_body", re.sub(r"\s+", "", cv) if cv else None)
     # ---- emit
     lines = ["/- GENERATED by tools/extract.py from /repo/src — do not edit. -/", "namespace Bp7.Extracted", ""]
     for name, kind, v in facts:
